@@ -42,9 +42,21 @@ def history(tid, rng, steps):
     events = []
     for _ in range(steps):
         r = rng.random()
-        e = {"ev": "gate", "kind": "", "q": [], "err": "", "prob": [0, 1]}
+        e = {"ev": "gate", "kind": "", "q": [], "err": "", "prob": [0, 1], "res": False, "other": {"branches": []}}
         try:
-            if r < 0.15:
+            if r < 0.12:
+                # == against a copy with the branches in another order, now and then with one branch changed
+                e["ev"] = "eq"
+                branches = [(w, t.copy()) for w, t in ms.mixture]
+                rng.shuffle(branches)
+                if rng.random() < 0.4:
+                    import graphiq.backends.stabilizer.functions.transformation as tr
+                    j = rng.randrange(len(branches))
+                    branches[j] = (branches[j][0], tr.z_gate(branches[j][1], rng.randrange(n)))
+                other = MixedStabilizer(branches)
+                e["other"] = mix_obs(other)
+                e["res"] = bool(ms == other)
+            elif r < 0.22:
                 e["ev"] = "reduce"
                 ms.reduce()
             elif r < 0.7 or n == 1:
